@@ -268,7 +268,7 @@ def brief(post, k):
 
 # ---------------------------------------------------------------------------
 # T: traces recorded from the implementation
-NAMEPOOL = ["a", "b-c", "b_c", "z9", "k-1", "k_1", "Q"]
+NAMEPOOL = ["a", "b-c", "b_c", "z9", "k-1", "k_1", "Q", "2th", "y.c"]
 
 
 def record_traces(n, maxlen, seed, wd):
